@@ -44,6 +44,10 @@ LOOKUP = {
     "alloc::vec::Vec::len", "alloc::vec::Vec::is_empty", "alloc::vec::Vec::iter", "alloc::vec::Vec::capacity",
     "alloc::collections::vec_deque::VecDeque::len", "alloc::collections::vec_deque::VecDeque::is_empty",
     "alloc::collections::vec_deque::VecDeque::iter", "alloc::collections::vec_deque::VecDeque::front",
+    "alloc::collections::vec_deque::VecDeque::get", "alloc::collections::vec_deque::VecDeque::get_mut",
+    "core::ops::index::Index::index", "core::ops::index::IndexMut::index_mut",
+    "<alloc::collections::vec_deque::VecDeque<T, A> as core::ops::index::Index<usize>>::index",
+    "<alloc::vec::Vec<T, A> as core::ops::index::Index<I>>::index",
     "smallvec::SmallVec::len", "smallvec::SmallVec::is_empty",
     "core::ops::deref::Deref::deref", "core::ops::deref::DerefMut::deref_mut",
     "<alloc::vec::Vec<T, A> as core::ops::deref::Deref>::deref", "<alloc::vec::Vec<T, A> as core::ops::deref::DerefMut>::deref_mut",
